@@ -980,7 +980,8 @@ def run(chk, replay=None):
             # correspondence: the recorded SAX streams of the saved parts through the model vs the loaded document
             p1 = L.read_pkg(raw1)
             key = {'doc': i, 'class': rec['class']}
-            correspond_save(chk, drv, s1, p1, key)
+            if not rec.get('extreme'):      # (xmlcorr's canon / has_discouraged recurse through builtins: not for 400 levels)
+                correspond_save(chk, drv, s1, p1, key)
             for k, sub in enumerate(s1['objects']):
                 correspond_save(chk, drv, sub, p1, dict(key, object=k + 1), u'Object %d/' % (k + 1))
             for folder, real in sorted(d2._loaded_sections.items()):
